@@ -143,6 +143,15 @@ def run_spec(sp):
             + (',tight-vessels' if tight else ''))
     fps = (e1.exact_obj(source), e1.exact_obj(solvent))
     env.clear_caches(pp)
+    # what was prepared from this stock before does not matter: every other solute of the stock is asked for first (half its
+    # molarity, 1 mL) - part of the judged and replayed case
+    for o_ in list(source.contents):
+        if o_ is not solute and e1.ident(o_) != e1.ident(solute) and o_.name != own and not o_.is_enzyme():
+            try:
+                c_o = ref.conc(pp, source.contents, o_, 'mol', 'L')
+                C.create_solution_from(source, o_, C05.conc_str(c_o / 2, 'M'), subs[own], '1 mL', 'earlier')
+            except Exception:  # noqa
+                pass
     if sp.get('ask'):
         ask = subs[sp['ask']]
         call = call.replace(f", {solute.name}, ", f", <{sp['ask']}: a twin of {solute.name}>, ")
